@@ -346,11 +346,11 @@ func extractTimeout(headers http.Header, protocol conformancev1.Protocol, feedba
 		}
 		headers.Del(connectTimeoutHeader)
 		intVal, err := strconv.ParseInt(val, 10, 64)
-		if err != nil || intVal < 0 {
+		if err != nil || intVal < 0 || !isAllDigits(val) {
 			feedback.Printf("invalid numeric value for %q header: %q", connectTimeoutHeader, val)
 			break
 		}
-		if intVal > 9999999999 { // 10 digit max
+		if len(val) > 10 { // 10 digit max
 			feedback.Printf("invalid numeric value (>10 digits) in %q header: %q", connectTimeoutHeader, val)
 			break
 		}
@@ -376,11 +376,11 @@ func extractTimeout(headers http.Header, protocol conformancev1.Protocol, feedba
 			break
 		}
 		intVal, err := strconv.ParseInt(timeoutStr, 10, 64)
-		if err != nil || intVal < 0 {
+		if err != nil || intVal < 0 || !isAllDigits(timeoutStr) {
 			feedback.Printf("invalid numeric value in %q header: %q", grpcTimeoutHeader, val)
 			break
 		}
-		if intVal > 99999999 { // 8 digit max
+		if len(timeoutStr) > 8 { // 8 digit max
 			feedback.Printf("invalid numeric value (>8 digits) in %q header: %q", grpcTimeoutHeader, val)
 			break
 		}
@@ -413,6 +413,17 @@ func extractTimeout(headers http.Header, protocol conformancev1.Protocol, feedba
 		return timeout, true
 	}
 	return 0, false
+}
+
+// isAllDigits returns true if the given string consists only of ASCII digits.
+// (strconv.ParseInt also accepts a leading sign, which the protocols do not.)
+func isAllDigits(s string) bool {
+	for i := range len(s) {
+		if s[i] < '0' || s[i] > '9' {
+			return false
+		}
+	}
+	return s != ""
 }
 
 func contextWithTimeout(ctx context.Context, timeout time.Duration) context.Context {
